@@ -253,7 +253,8 @@ def run(ck):
             new = u(ast.Module(body=il.orelse, type_ignores=[]))
             ok = ok and 'group_id += 1' in new and 'representatives.append((group_id, {}))'.format(u(outer[0].target)) in new and '{} = group_id'.format(mid) in new
             store = [s for s in outer[0].body if isinstance(s, ast.Assign) and 'meta[' in u(s.targets[0])]
-            ok = ok and len(store) == 1 and mid in u(store[0].value) and unconditional_in(nd, outer[0].body, store[0])
+            # the name is *assigned* (an earlier value is replaced): the stored value is built from the id alone, it does not read what was there
+            ok = ok and len(store) == 1 and mid in u(store[0].value) and 'meta' not in u(store[0].value) and unconditional_in(nd, outer[0].body, store[0])
     ck.ob('DT-same-moltype', nm.loc(nd), ok, 'a molecule takes the name of the first representative it shares its type with, otherwise a new name (decision = share_moltype_with only)',
           key='DT-same-moltype|naming')
     # ---- atoms are not reordered, after molecule types were assigned, by an attribute the type comparison ignores
